@@ -105,4 +105,13 @@ def handleHist : List String → String
     s!"{t} maxfrees={mx} uaf={s.uaf} mismatch={s.mismatch}"
   | _ => "bad-op"
 
+/-- `ca <destSize> <srcSize> <elemLen>`: bytes copied by ShroudCopyArray, or `ub` -/
+def handleCa : List String → String
+  | [m, n, e] =>
+    let (m, n, e) := (m.toNat!, n.toNat!, e.toNat!)
+    match copyArray (List.replicate (m * e) 0) (List.replicate (n * e) 1) m n e with
+    | some _ => toString (copyCount m n e)
+    | none => "ub"
+  | _ => "bad-op"
+
 end Driver
